@@ -15,12 +15,14 @@ demos = [p for p in glob.glob(wt + "/zz_demo*_test.go") + glob.glob(wt + "/caddy
 ran = {}
 b = sh("go build ./... && (cd caddy && go build ./...)"); ran["build"] = b.returncode == 0
 bl = sh(["python3", "/tmp/mut/baseline.py", "--stable", wt]); ran["baseline_with_change"] = bl.stdout.strip().splitlines()[0] if bl.stdout else bl.stderr[-200:]
-pkg = "." if not any("/caddy/" in d for d in demos) else "./caddy"
-t1 = sh(f"go test -count=1 -run 'TestDemo' {pkg} 2>&1 | tail -15", timeout=900); ran["demo_with_change"] = "FAIL" if ("FAIL" in t1.stdout) else "ok"
+incaddy = any("/caddy/" in d for d in demos)
+pkg = "."
+tcwd = wt + "/caddy" if incaddy else wt
+t1 = sh(f"go test -count=1 -run 'TestDemo' {pkg} 2>&1 | tail -15", cwd=tcwd, timeout=900); ran["demo_with_change"] = "FAIL" if ("FAIL" in t1.stdout) else "ok"
 # (git stash is shared between worktrees: reverse-apply the diff instead)
 open("/tmp/mut/_intake.diff", "w").write(diff)
 sh("git apply -R /tmp/mut/_intake.diff")
-t2 = sh(f"go test -count=1 -run 'TestDemo' {pkg} 2>&1 | tail -5", timeout=900); ran["demo_without_change"] = "FAIL" if ("FAIL" in t2.stdout) else "ok"
+t2 = sh(f"go test -count=1 -run 'TestDemo' {pkg} 2>&1 | tail -5", cwd=tcwd, timeout=900); ran["demo_without_change"] = "FAIL" if ("FAIL" in t2.stdout) else "ok"
 sh("git apply /tmp/mut/_intake.diff")
 ok = ran["build"] and "49/49" in str(ran["baseline_with_change"]) and ran["demo_with_change"] == "FAIL" and ran["demo_without_change"] == "ok"
 print(json.dumps(ran, indent=1)); print("CONFIRMED" if ok else "NOT CONFIRMED")
